@@ -17,6 +17,26 @@ func parseStrUint(buf []byte) (u uint) {
 	return
 }
 
+// subSecMillis returns the milliseconds that the digits of a SubSecTime value stand for.
+// The value holds the decimal fraction of a second ("5" is half a second, "045" 45 ms):
+// the first three digits count, scaled up when there are fewer.
+func subSecMillis(buf []byte) (ms uint16) {
+	n := 0
+	for i := 0; i < len(buf) && n < 3; i++ {
+		if buf[i] >= '0' && buf[i] <= '9' {
+			ms = ms*10 + uint16(buf[i]-'0')
+			n++
+		}
+	}
+	if n == 1 {
+		return ms * 100
+	}
+	if n == 2 {
+		return ms * 10
+	}
+	return ms
+}
+
 // trimNULBuffer removes trailing bytes from Buffer
 func trimNULBuffer(buf []byte) []byte {
 	for i := len(buf) - 1; i >= 0; i-- {
